@@ -28,6 +28,7 @@ var overlayDirs = map[string]string{
 	"oraclemod": "module/x/oracle",
 	"conncommand": "minter-connector/command",
 	"connminter": "minter-connector/minter",
+	"conncontext": "minter-connector/context",
 	"otypes": "module/x/oracle/types",
 }
 
@@ -124,6 +125,13 @@ func (l *Loaded) findEntry(name string) *ssa.Function {
 		}
 		if f := p.Func(name); f != nil {
 			return f
+		}
+	}
+	for _, p := range l.prog.AllPackages() { // harness support functions in dependency packages (stubs)
+		if strings.HasPrefix(p.Pkg.Path(), "github.com/MinterTeam/mhub2/") {
+			if f := p.Func(name); f != nil {
+				return f
+			}
 		}
 	}
 	return nil
